@@ -148,7 +148,11 @@ class SimLoop(asyncio.BaseEventLoop):
         self.call_soon(protocol.connection_made, tr)
         fut = self.create_future()  # connection_made runs before create_connection returns, as in asyncio
         self.call_soon(lambda: fut.done() or fut.set_result(None))
-        await fut
+        try:
+            await fut
+        except BaseException:
+            tr.close()  # as BaseEventLoop._create_connection_transport does when the caller is cancelled at this point
+            raise
         return tr, protocol
 
     def run_in_executor(self, executor, func, *args):
